@@ -25,9 +25,9 @@ C = {
  "C12": ("model_checking", ["E1", "E3"], "controlled-scheduler exploration of for_each / enumerate_for_each / fold callers (chunk sizes 1,2,3) against each other and direct pullers", "Closure invoked exactly once per element with the right index, fold results flow through the accumulator, iterator exhausted after return, on every interleaving / sequential history.", "5/C12"),
  "C13": ("model_checking", ["E3", "E1"], "lock-step pair: every bounded history applied to the adaptor and to an identical underlying reference-yielding iterator + the concurrent oracles on adaptor kinds", "Observation streams of cloned()/copied() iterators equal those of the underlying iterator step by step; clones are clones, source untouched; concurrent exactly-once/order oracles on adaptor kinds.", "5/C13"),
  "C14": ("exploration", ["E4", "E3"], "exhaustive family of probe programs judged by the compiler against a reference typing rule + bounded-exhaustive safe low-level call sequences with an ownership ledger", "The enumeration of programs / call sequences is exhaustive over the stated family; the verdict on one program is rustc's (not a model checker's), which is why the level is 'exploration'. Two genuine defects are recorded as known findings (F11, F12).", "3.4, 5/C14"),
- "C15": ("model_checking", ["E3"], "bounded-exhaustive histories on consuming kinds with a counting global allocator (element sizes 8 and 24 bytes)", "After every history and terminal, no heap block that belonged to the consumed collection or was allocated by the iterator machinery is live.", "5/C15"),
+ "C15": ("model_checking", ["E3", "E1"], "bounded-exhaustive histories on consuming kinds with a counting global allocator (element sizes 8 and 24 bytes, elements owning a heap block) + the same ledger after every interleaving of concurrent stop-early systems", "After every history and terminal, and after every explored interleaving followed by drop / into_seq_iter, no heap block that belonged to the consumed collection or was allocated by the iterator machinery is live.", "5/C15, 11.2"),
  "C16": ("exploration", ["E3"], "exhaustive grid of boundary inputs (range bounds^2, chunk sizes up to usize::MAX, zero sizes) x short follow-up histories, in a build with and one without overflow checks, against a mathematical model", "Every cell of the stated grid followed by every history of depth <= 3/4: exact in-range values and indices, no empty chunk, no panic except the documented ones (which must occur).", "5/C16"),
- "C17": ("exploration", ["E3"], "differential: the complete transcripts of an exhaustive history set produced by two differently compiled harness binaries (debug assertions + overflow checks on / off) must be identical; aborts are caught per history", "Transcript hashes per work unit compared between profiles; any abort (std precondition check) or difference is localised to the first differing history.", "5/C17"),
+ "C17": ("exploration", ["E3", "E1"], "differential: the complete transcripts of an exhaustive history set produced by two differently compiled harness binaries (debug assertions + overflow checks on / off) must be identical, aborts are caught per history; plus the outcome sets of exhaustively explored 2-thread systems (length queries racing with pulls) compared between two differently compiled scheduler binaries", "Transcript hashes per work unit compared between profiles; any abort (std precondition check) or difference is localised to the first differing history. Concurrent leg: per configuration identical outcome sets and violation classes in both profiles.", "5/C17, 11.2"),
  "C18": ("fault_enumeration", ["E1"], "fault injection at every position k (k-th next() of the wrapped iterator, k-th clone, k-th closure call) x all interleavings of the other threads, with hang predicate and drop ledger", "For every crash point and every interleaving: no hang, no duplicate, exact-once destruction.", "5/C18"),
  "C19": ("model_checking", ["E3"], "bounded-exhaustive histories over up to three live iterators (fresh and cloned) on one collection vs. one reference cursor per iterator, with address checks", "Every delivered reference points at the collection's element, iterators and clones progress independently (all are queried after every step), the collection is intact afterwards.", "5/C19"),
 }
